@@ -45,6 +45,11 @@ TRUSTED = [
 EXPOS = [1, 2, INF, 3, 4]
 
 
+def translate():
+    from translate import weighting as W
+    return {'Gen/Weighting.v': W.translate()}
+
+
 # ------------------------------------------------------------------ literals
 def nat(n):
     return '%d%%nat' % int(n)
@@ -123,9 +128,9 @@ def quirks():
 
 
 def quirks_term():
-    q = quirks()
-    return ('{| q_unweighted_skips := %s; q_ps2_via_inner := %s |}'
-            % (C.b(q['q_unweighted_skips']), C.b(q['q_ps2_via_inner'])))
+    """The model's two variant switches are read off the regenerated code (C02/GenTie.v: gen_quirks);
+    a probe checks that they agree with the measured behaviour."""
+    return 'gen_quirks'
 
 
 # ------------------------------------------------------------- space trees
@@ -487,7 +492,7 @@ def _add_ops(cs, rng, node, qt, nel, ops=('inner', 'norm', 'dist'), kinds=None):
 
 
 def sp_cases(rng, tier):
-    cs = C.CaseSet('spaces', ['Base.Vec', 'C02.Model', 'C02.Corr'], 'check_sp', 'sp_case')
+    cs = C.CaseSet('spaces', ['Base.Vec', 'C02.Model', 'C02.GenTie', 'C02.Corr'], 'check_sp', 'sp_case')
     qt = quirks_term()
     thorough = tier != 'quick'
     # (1) every leaf option: tensor x weighting x exponent x shapes incl. 0 / () ; dtype
@@ -559,7 +564,7 @@ def sp_cases(rng, tier):
 
 
 def complex_cases(rng, tier):
-    cs = C.CaseSet('complex', ['Base.Vec', 'C02.Model', 'C02.Corr'], 'check_c', 'c_case')
+    cs = C.CaseSet('complex', ['Base.Vec', 'C02.Model', 'C02.GenTie', 'C02.Corr'], 'check_c', 'c_case')
     qt = quirks_term()
     n_each = 1 if tier == 'quick' else 4
     for p, wk, kind in itertools.product(EXPOS, ['none', 'const', 'array'], ['tensor', 'discr']):
@@ -593,7 +598,7 @@ def ctree_cases(rng, tier):
     """Complex spaces of any nesting: <x, y> itself (re and im) on non-real data, for default / constant /
     array product weightings at every level (the component inner products must be gathered as
     x1i.inner(x2i): the conjugate shows up in the imaginary part)."""
-    cs = C.CaseSet('ctree', ['Base.Vec', 'C02.Model', 'C02.Corr'], 'check_ct', 'ct_case')
+    cs = C.CaseSet('ctree', ['Base.Vec', 'C02.Model', 'C02.GenTie', 'C02.Corr'], 'check_ct', 'ct_case')
     qt = quirks_term()
     thorough = tier != 'quick'
     CD = 'complex128'
@@ -641,7 +646,7 @@ def ctree_cases(rng, tier):
 
 def partition_cases(rng, tier):
     import odl
-    cs = C.CaseSet('partition', ['Base.Vec', 'C02.Model', 'C02.Corr'], 'check_p', 'p_case')
+    cs = C.CaseSet('partition', ['Base.Vec', 'C02.Model', 'C02.GenTie', 'C02.Corr'], 'check_p', 'p_case')
     ns = list(range(1, 9)) + [16, 33] if tier == 'quick' else list(range(1, 21)) + [33, 64, 100, 257]
     for n in ns:
         for bl, br in itertools.product([False, True], repeat=2):
@@ -656,7 +661,7 @@ def partition_cases(rng, tier):
                            C.q(float(part.grid.max_pt[0])), C.q(float(part.cell_sides[0])), C.q(fl), C.q(fr)))
                 cs.add(term, {'n': n, 'a': a, 'b': a + L, 'nodes_on_bdry': [bl, br]}, (n, a, L, bl, br))
     # N-d: cell volume, extent and the boundary weight array as applied to an array of ones
-    cv = C.CaseSet('volume', ['Base.Vec', 'C02.Model', 'C02.Corr'], 'check_v', 'v_case')
+    cv = C.CaseSet('volume', ['Base.Vec', 'C02.Model', 'C02.GenTie', 'C02.Corr'], 'check_v', 'v_case')
     from odl.util.numerics import apply_on_boundary
     from odl.discr.discr_space import _scaling_func_list
     for _ in range(40 if tier == 'quick' else 300):
@@ -1088,6 +1093,15 @@ def probes(rng, tier):
         probe_space(out, node.src, node.space, rng, cplx=True)
     # memory layouts (C / F / wrapped Fortran / transposed / strided) x array weights x exponents
     layout_probes(out, rng, tier)
+    # the switches derived from the source text agree with the behaviour measured on the findings' inputs
+    gen = translate()['Gen/Weighting.v']
+    q = quirks()
+    g_unw = 'UNotWeighted' in gen.split('gen_unif_weighted')[1].split('\n')[0]
+    g_ps2 = 'gen_ps2_via_inner : bool := true' in gen
+    out.append(C.Probe(g_unw == q['q_unweighted_skips'] and g_ps2 == q['q_ps2_via_inner'],
+                       'generated-switches-vs-behaviour',
+                       'variant switches read off the source (%r, %r) equal the measured ones (%r, %r)'
+                       % (g_unw, g_ps2, q['q_unweighted_skips'], q['q_ps2_via_inner']), None))
     # (5) the recorded findings, each reproduced on its own input
     def known(key, what, snippet):
         env = {}
